@@ -65,6 +65,35 @@ theorem restrict_specCount (T R C : Var) (hT : T.CM) (hR : R.CM) (hC : C.CM) (s 
   | [] => simp [specMemAll]
   | aT :: as => simp [specMemAll, hT.nApparent]
 
+/-- **A categorical array as the table dimension yields one partition per sub-variable, equal to
+    the analysis of that sub-variable** (as a categorical variable) crossed with the columns
+    variable: the count extractor object of partition k is the 2-D one of the recoded survey. -/
+theorem partition_ca_item (ca X : Var) (hca : ca.kind = .arr) (hnm : ca.isMR = false) (hX : X.CM)
+    (s : Survey) (k : Nat) (hk : k < ca.n) :
+    sliceCounts [ca, X] (cubeOf [ca, X] s) k
+      = sliceCounts [ca.itemVar, X] (cubeOf [ca.itemVar, X] (s.map (recodeItem k))) 0 := by
+  have hk3 : apparentKinds [ca, X] = [.arr, .cat, X.dk] := by
+    rcases hX with hX | ⟨hX, hmX, _⟩ <;> simp [apparentKinds, Var.dks, Var.dk, hca, hnm, *]
+  have hk2 : apparentKinds [ca.itemVar, X] = [.cat, X.dk] := by
+    rcases hX with hX | ⟨hX, hmX, _⟩ <;> simp [apparentKinds, Var.dks, Var.dk, Var.itemVar, *]
+  unfold sliceCounts
+  rw [hk3, hk2]
+  have h := sliceExpr_ca_item ca [X] hca hnm s k hk
+  simp only [List.length_cons, List.length_nil, List.getD] at h ⊢
+  simp only [show (0 + 1 + 1 + 1 : Nat) = 3 by rfl, show (0 + 1 + 1 : Nat) = 2 by rfl] at h ⊢
+  simp only [show (3 - 2 : Nat) = 1 by rfl, show (3 - 1 : Nat) = 2 by rfl,
+    show (2 - 2 : Nat) = 0 by rfl, show (2 - 1 : Nat) = 1 by rfl, List.getElem?_cons_zero,
+    List.getElem?_cons_succ, Option.getD_some] at h ⊢
+  rw [h]
+  simp [sliceExpr]
+
+theorem partitions_count_ca (ca X : Var) (hca : ca.kind = .arr) (hnm : ca.isMR = false) (hX : X.CM) :
+    nPartitions [ca, X] = ca.n := by
+  have hk3 : apparentKinds [ca, X] = [.arr, .cat, X.dk] := by
+    rcases hX with hX | ⟨hX, hmX, _⟩ <;> simp [apparentKinds, Var.dks, Var.dk, hca, hnm, *]
+  rw [nPartitions, hk3]
+  simp [firstDimCount, hca]
+
 -- non-vacuity: a concrete 3-D design (MR table variable, categorical rows with a missing
 -- category in mid-payload, categorical columns) satisfies the hypotheses
 example : (⟨.arr, 2, [false, false, true], true⟩ : Var).CM ∧
